@@ -578,6 +578,83 @@ def keyframe_classifier_rule(prog, run):
     run.floor("R7", n, 2 * 256 * 3, "(codec, frame shape, header byte) evaluations")
 
 
+
+def builder_audio_table(prog, run, rule):
+    """`MuxerBuilder::build` tabulated by finite-domain interpretation of its MIR over the audio configuration
+    {absent} + {None, Opus, Aac(6 profiles)} x 7 sample rates x 5 channel counts (video configured): build succeeds; the muxer has an
+    audio track - with exactly the configured codec, rate and channel count - iff an audio codec other than `None` was configured;
+    and the writer's audio track is enabled exactly then, once, with the same three values.  (A configured stream is never dropped
+    or refused for another reason; no track appears for a stream that was not configured.)"""
+    from .. import minieval as E
+    u = prog.lib
+    bp = [k for k in u.bodies if mir.norm(k) == "api::MuxerBuilder::build" and not u.bodies[k]["in_test_cfg"]]
+    ac, ap, mb = u.adts.get("api::AudioCodec"), u.adts.get("api::AacProfile"), u.adts.get("api::MuxerBuilder")
+    en = [k for k in u.bodies if mir.norm(k) == "muxer::mp4::Mp4Writer::enable_audio"]
+    if len(bp) != 1 or not ac or not ap or not mb or len(en) != 1:
+        run.bad(rule, "anchor MuxerBuilder::build", "builder / audio codec types / Mp4Writer::enable_audio not found")
+        return
+    vnames = [v["name"] for v in ac["variants"]]
+    codecs = []
+    for i, v in enumerate(ac["variants"]):
+        if v["fields"]:
+            for j, pv in enumerate(ap["variants"]):
+                codecs.append(("%s(%s)" % (v["name"], pv["name"]), lambda i=i, j=j: E.Adt("api::AudioCodec", i, [E.Adt("api::AacProfile", j, [])])))
+        else:
+            codecs.append((v["name"], lambda i=i: E.Adt("api::AudioCodec", i, [])))
+    fields = [f["name"] for f in mb["variants"][0]["fields"]]
+    n = 0
+    bad = None
+    try:
+        scen = [None] + [(c, r, ch) for c in codecs for r in (0, 1, 8000, 44100, 48000, 96000, 0xFFFFFFFF) for ch in (0, 1, 2, 8, 0xFFFF)]
+        for sc in scen:
+            calls = []
+
+            def rec(m_, a, d, calls=calls):
+                calls.append(a)
+                return E.UNIT
+            m = E.Machine(u, models={"muxer::mp4::Mp4Writer::enable_audio": rec})
+            m.lenient = True
+            vals = {"writer": E.Opaque("sink"), "video": E.some((E.Adt("api::VideoCodec", 0, []), 1920, 1080, E.Opaque("fps"))),
+                    "audio": E.none() if sc is None else E.some((sc[0][1](), sc[1], sc[2])), "fast_start": 1}
+            selfv = E.Adt("api::MuxerBuilder", 0, [vals.get(f, E.none()) for f in fields], fields)
+            r = m.call_fn(bp[0], [selfv])
+            n += 1
+            if not (isinstance(r, E.Adt) and r.name == "Result"):
+                raise E.Unsupported("result outside the model: %r" % (r,))
+            want_track = sc is not None and sc[0][0] != "None"
+            got = None
+            why = None
+            if r.variant != 0:
+                why = "build fails"
+            else:
+                mux = r.fields[0]
+                at = mux.get("audio_track") if isinstance(mux, E.Adt) else None
+                if not (isinstance(at, E.Adt) and at.name == "Option"):
+                    raise E.Unsupported("audio_track outside the model: %r" % (at,))
+                if bool(at.variant) != want_track:
+                    why = "the muxer has %s audio track" % ("an" if at.variant else "no")
+                elif want_track:
+                    cfg = at.fields[0]
+                    got = (cfg.get("codec"), cfg.get("sample_rate"), cfg.get("channels")) if isinstance(cfg, E.Adt) else None
+                    if got != (sc[0][1](), sc[1], sc[2]):
+                        why = "the muxer's audio track is %r" % (got,)
+                if why is None:
+                    if len(calls) != (1 if want_track else 0):
+                        why = "the writer's audio track is enabled %d time(s)" % len(calls)
+                    elif want_track:
+                        tr = calls[0][1]
+                        got = (tr.get("codec"), tr.get("sample_rate"), tr.get("channels")) if isinstance(tr, E.Adt) else None
+                        if got != (sc[0][1](), sc[1], sc[2]):
+                            why = "the writer's audio track is enabled with %r" % (got,)
+            if why and bad is None:
+                bad = ("no audio configured" if sc is None else "audio(%s, %d, %d)" % (sc[0][0], sc[1], sc[2]), why)
+    except E.Unsupported as ex:
+        run.bad(rule, "builder audio table", "cannot tabulate MuxerBuilder::build (fail closed): %s" % ex)
+        return
+    run.check(bad is None, rule, "builder audio table", "audio track <=> configured codec != None, with the configured rate / channels; writer enabled exactly then (%d configurations)" % n,
+              "" if bad is None else "with %s: %s" % bad, mir.loc_of(u.bodies[bp[0]]))
+    run.floor(rule, n, 200, "builder configurations evaluated")
+
 def check(prog, run):
     run.rule("R8", "ADTS acceptance table: for every value of every header field (others valid) and every short length, the validator's outcome (error kind / returned payload range) is the one the contract prescribes")
     adts_table_rule(prog, run)
@@ -705,6 +782,9 @@ def check(prog, run):
     run.rule("R11", "a first keyframe carrying its parameter sets is accepted wherever they stand in the frame: the extractors find them for every header byte of any other unit before or after them (C07.R13 instances)")
     from . import c07
     c07.parameter_set_table_rule(prog, run, "R11")
+    c07.av1_seq_position_rule(prog, run, "R11")
+    run.rule("R12", "the builder keeps every configured audio stream (codec other than None) with its rate and channel count, enables the writer's audio track exactly then, and never otherwise (tabulated over codecs x rates x channel counts)")
+    builder_audio_table(prog, run, "R12")
     run.rule("R10", "finish refuses only when already finished, when the sink fails or when a size does not fit 32 bits: every error exit / `?` of the finalisation tree is of one of these kinds")
     finish_refusals_rule(prog, run, cx)
 
